@@ -139,13 +139,27 @@ static void p2p(vh::Rng & r, int type, vh::Out & out)
     nn[k % DIM] = (k / DIM) % 2 ? -1 : 1;
     src.push_back(s); nrm.push_back(nn);
   }
+  // inconsistent data whose minimiser is still x*: some correspondences come in twins (same source point, same normal) whose targets
+  // are displaced by +d and -d along the normal - the displacement sometimes cancels one twin's residual exactly
+  std::vector<int> twin(n, -1);
+  if (r.coin()) {
+    for (int k = (int)(2 * NP); k + 2 * (int)DIM < n; k += 2 * (int)DIM + (int)DIM * 2 * (int)r.range(0, 2)) {
+      // k and k + 2 DIM carry the same normal (the normals cycle with period 2 DIM)
+      src[k + 2 * DIM] = src[k]; twin[k + 2 * DIM] = k;
+    }
+  }
   // for the index-based overloads the target points and their normals are stored in a shuffled order, with extra unmatched targets
   int how = (int)r.range(0, 3);
   const bool indexed = how == 1 || how == 3;
-  int extra = indexed ? (int)r.range(0, 10) : 0;
+  // ... or the source set is the larger one: unmatched source points, matched ones anywhere in the set
+  const int extraS = indexed && r.coin(1, 3) ? (int)r.range(1, 2 * n) : 0;
+  int extra = indexed && extraS == 0 ? (int)r.range(0, 10) : 0;
   std::vector<int> tpos(n + extra); for (int k = 0; k < n + extra; ++k) {tpos[k] = k;}
   if (indexed) {for (int k = n + extra - 1; k > 0; --k) {std::swap(tpos[k], tpos[(size_t)r.range(0, k)]);}}
-  PointSet<PT> ps(n), pt(n + extra); NormalSet<PT> ns(n + extra);
+  std::vector<int> spos(n + extraS); for (int k = 0; k < n + extraS; ++k) {spos[k] = k;}
+  if (extraS) {for (int k = n + extraS - 1; k > 0; --k) {std::swap(spos[k], spos[(size_t)r.range(0, k)]);}}
+  PointSet<PT> ps(n + extraS), pt(n + extra); NormalSet<PT> ns(n + extra);
+  for (int k = n; k < n + extraS; ++k) {IV g; for (size_t a = 0; a < DIM; ++a) {g.push_back(r.range(-9, 9));} ps[spos[k]] = mk<PT, DIM>(g);}
   for (int k = 0; k < n + extra; ++k) {
     if (k >= n) {
       IV g, nn(DIM, 0); for (size_t a = 0; a < DIM; ++a) {g.push_back(r.range(-9, 9));} nn[(size_t)r.range(0, DIM - 1)] = 1;
@@ -158,9 +172,17 @@ static void p2p(vh::Rng & r, int type, vh::Out & out)
     IV row = DIM == 2 ? IV{nn[0], nn[1], s[0] * nn[1] - s[1] * nn[0]} :
       IV{nn[0], nn[1], nn[2], s[1] * nn[2] - s[2] * nn[1], s[2] * nn[0] - s[0] * nn[2], s[0] * nn[1] - s[1] * nn[0]};
     long long y = 0; for (size_t j = 0; j < NP; ++j) {y += row[j] * xs[j];}
+    if (twin[k] >= 0) {
+      // the first twin gets +d, this one -d; d equal to the consistent residual makes this twin's residual exactly zero
+      const long long d = r.coin() ? y : r.range(-6, 6);
+      ys[(size_t)twin[k]] += d;
+      IV g0; for (size_t a = 0; a < DIM; ++a) {g0.push_back(src[(size_t)twin[k]][a] + ys[(size_t)twin[k]] * nrm[(size_t)twin[k]][a]);}
+      pt[tpos[twin[k]]] = mk<PT, DIM>(g0);
+      y -= d;
+    }
     ys.push_back(y);
     IV g; for (size_t a = 0; a < DIM; ++a) {g.push_back(s[a] + y * nn[a]);}          // target = source + (row . x*) n
-    ps[k] = mk<PT, DIM>(s); pt[tpos[k]] = mk<PT, DIM>(g);
+    ps[spos[k]] = mk<PT, DIM>(s); pt[tpos[k]] = mk<PT, DIM>(g);
     std::vector<double> nd; for (auto v : nn) {nd.push_back((double)v);}
     ns[tpos[k]] = mkd<PT, DIM>(nd, 0.0);
   }
@@ -187,7 +209,7 @@ static void p2p(vh::Rng & r, int type, vh::Out & out)
   // histories: two long-lived estimators per point type (plain / preconditioned), reused for problems of varying sizes
   static FindRigidTransformationByLeastSquares<PT> estPlain, estPre;
   static PreconditionedPointSet<PT> pa, pb;
-  std::vector<Correspondence> cs; for (int k = 0; k < n; ++k) {cs.push_back(Correspondence((size_t)k, (size_t)tpos[k]));}
+  std::vector<Correspondence> cs; for (int k = 0; k < n; ++k) {cs.push_back(Correspondence((size_t)spos[k], (size_t)tpos[k]));}
   if (indexed) {for (int k = n - 1; k > 0; --k) {std::swap(cs[k], cs[(size_t)r.range(0, k)]);}}             // any order of the list
   typename FindRigidTransformationByLeastSquares<PT>::TransformationMatrixType H;
   if (how == 0) {H = estPlain.find(ps, pt, ns);}
